@@ -817,6 +817,14 @@ class _LayerDims:
         self.rng, self.distinct, self.d, self.pools = rng, distinct, {}, {}
 
     def get(self, cls):
+        # In the library the bra is the conjugate of the ket and an operator maps a site space to itself: the bra leg
+        # of a block has the dimension of its ket leg and the input leg of an operator that of its output leg.
+        # Inputs violating this are outside the domain of the functions (a rewrite may rely on it), so the two are
+        # drawn together; swapped ket/bra or in/out legs are still seen by the value comparison (einsum).
+        if cls[0] == "B":
+            cls = ("K",) + tuple(cls[1:])
+        elif cls[0] == "in":
+            cls = ("out",) + tuple(cls[1:])
         if cls not in self.d:
             layer = cls[0]
             if self.distinct:
@@ -1054,12 +1062,8 @@ def run(ctx):
         if ctx.time_left() < 0:
             break
         _case_legs(ctx, c, mo)
-    heffs = gen_heff_cases(ctx)
-    outs = ctx.lean.batch([heff_line(c) for c in heffs])
-    for c, mo in zip(heffs, outs):
-        if ctx.time_left() < 0:
-            break
-        _case_heff(ctx, c, mo)
+    # the effective-Hamiltonian cases tie the model Ptn.C05.Heff to the code: they are run and judged by the check of
+    # C05 (run_heff below), not by C04
     trees = gen_tree_cases(ctx)
     outs = ctx.lean.batch([tree_line(c) for c in trees])
     for c, mo in zip(trees, outs):
@@ -1070,6 +1074,19 @@ def run(ctx):
         if ctx.time_left() < 0:
             break
         run_case(ctx, c)
+
+
+def run_heff(ctx):
+    """Entry point for the check of C05: the real effective-Hamiltonian functions on hand-built nodes against the
+    leg graphs of `Ptn.C05.Heff` (rows, columns, bound pairs), value level by einsum over the model's bindings."""
+    heffs = gen_heff_cases(ctx)
+    for c in heffs:
+        c["via"] = "c04"
+    outs = ctx.lean.batch([heff_line(c) for c in heffs])
+    for c, mo in zip(heffs, outs):
+        if ctx.time_left() < 0:
+            break
+        _case_heff(ctx, c, mo)
 
 
 def run_case(ctx, case):
